@@ -28,6 +28,7 @@ type (
 	EQuant  struct {
 		Forall bool
 		Vars   []Param
+		Pats   []Expr // optional instantiation patterns: forall i int {r.linesBuf[i].recordNum} :: ...
 		Body   Expr
 	}
 	EAssert struct{ X Expr; T string } // x.(T)
@@ -420,9 +421,20 @@ func (p *parser) parseTernary() Expr {
 			}
 			break
 		}
+		var pats []Expr
+		if p.isOp("{") {
+			p.next()
+			for !p.isOp("}") {
+				pats = append(pats, p.parseExpr())
+				if p.isOp(",") {
+					p.next()
+				}
+			}
+			p.expectOp("}")
+		}
 		p.expectOp("::")
 		body := p.parseExpr()
-		return &EQuant{Forall: t.s == "forall", Vars: vars, Body: body}
+		return &EQuant{Forall: t.s == "forall", Vars: vars, Pats: pats, Body: body}
 	}
 	c := p.parseBin(1)
 	if p.isOp("?") {
